@@ -69,8 +69,17 @@ C04(z) ==
      \cup {Case([op |-> op, secs |-> s, ns |-> n], a, a) :
              a \in {Dt(d, 43200, 5, 0) : d \in KeyDays} \cup {Dt(0, 0, 0, 0), Dt(0, 0, 1, 0), Dt(-1, 86399, 999999999, 60)},
              s \in {W(0), W(1), W(86399), W(86400), U32Max, MulSmall(U32Max, 86400), MulSmall(MulSmall(U32Max, 86400), 2),
-                    FromDigits(<<1, 8, 4, 4, 6, 7, 4, 4, 0, 7, 3, 7, 0, 9, 5, 5, 1, 6, 1, 5>>)},
+                    FromDigits(<<1, 8, 4, 4, 6, 7, 4, 4, 0, 7, 3, 7, 0, 9, 5, 5, 1, 6, 1, 5>>),
+                    \* 2^64 milliseconds and one day more: far outside the range, whatever the width of the intermediate count
+                    FromDigits(<<1, 8, 4, 4, 6, 7, 4, 4, 0, 7, 3, 7, 0, 9, 5, 5, 2>>),
+                    FromDigits(<<1, 8, 4, 4, 6, 7, 4, 4, 0, 7, 3, 7, 9, 5, 9, 5, 2>>),
+                    \* 2^64 microseconds and nanoseconds, one day more each
+                    FromDigits(<<1, 8, 4, 4, 6, 7, 4, 4, 0, 7, 3, 7, 1, 0>>), FromDigits(<<1, 8, 4, 4, 6, 7, 4, 4, 1, 6, 0, 1, 1, 0>>),
+                    FromDigits(<<1, 8, 4, 4, 6, 7, 4, 4, 0, 7, 4>>), FromDigits(<<1, 8, 4, 4, 6, 8, 3, 0, 4, 7, 4>>)},
              n \in {0, 1, 999999999}, op \in {"dt_add_dur", "dt_sub_dur", "date_add_dur", "date_sub_dur"}}
+     \* DateTime +/- Time: sums and differences that land exactly on, just before and just after a midnight
+     \cup {Case([op |-> op], Dt(d, t[1], t[2], o), Tm(b[1], b[2], bo)) :
+             d \in KeyDays, t \in KeyTods, b \in KeyTods, o \in {0, 3600}, bo \in {0, -3600}, op \in {"dt_add_time", "dt_sub_time"}}
 
 
 \* Date +/- Duration takes a Date operand
@@ -137,7 +146,13 @@ C08(z) ==
      \cup {Case([op |-> op], a, Tm(b[1], b[2], 0)) : a \in ts, b \in KeyTods, op \in {"time_add_time", "time_sub_time"}}
      \cup {Case([op |-> op, secs |-> s, ns |-> n], a, a) : a \in ts, op \in {"time_add_dur", "time_sub_dur"},
              s \in {W(0), W(1), W(86399), W(86400), W(86401), U32Max, MulSmall(U32Max, 86400),
-                    FromDigits(<<1, 8, 4, 4, 6, 7, 4, 4, 0, 7, 3, 7, 0, 9, 5, 5, 1, 6, 1, 5>>)}, n \in {0, 1, 999999999}}
+                    FromDigits(<<1, 8, 4, 4, 6, 7, 4, 4, 0, 7, 3, 7, 0, 9, 5, 5, 1, 6, 1, 5>>),
+                    \* 2^64 milliseconds and one day more: far outside the range, whatever the width of the intermediate count
+                    FromDigits(<<1, 8, 4, 4, 6, 7, 4, 4, 0, 7, 3, 7, 0, 9, 5, 5, 2>>),
+                    FromDigits(<<1, 8, 4, 4, 6, 7, 4, 4, 0, 7, 3, 7, 9, 5, 9, 5, 2>>),
+                    \* 2^64 microseconds and nanoseconds, one day more each
+                    FromDigits(<<1, 8, 4, 4, 6, 7, 4, 4, 0, 7, 3, 7, 1, 0>>), FromDigits(<<1, 8, 4, 4, 6, 7, 4, 4, 1, 6, 0, 1, 1, 0>>),
+                    FromDigits(<<1, 8, 4, 4, 6, 7, 4, 4, 0, 7, 4>>), FromDigits(<<1, 8, 4, 4, 6, 8, 3, 0, 4, 7, 4>>)}, n \in {0, 1, 999999999}}
      \cup {Case([op |-> "time_from_dt"], Dt(d, t[1], t[2], o), Dt(0, 0, 0, 0)) : d \in {-2, -1, 0, 1, MinDn + 1, UnixEpochDn}, t \in KeyTods, o \in {0, 3600}}
      \cup {Case([op |-> "time_from_seconds", s |-> s], DateV(0), DateV(0)) : s \in {W(0), W(1), W(86399), W(86400), W(86401), TwoTo31, U32Max}}
      \cup {Case([op |-> "time_from_nanos", n |-> n], DateV(0), DateV(0)) :
@@ -161,6 +176,7 @@ C08(z) ==
 (***************************************************************************)
 \* C09: setters and clears in local time
 LocalDates == {<<2022, 1, 31>>, <<2023, 2, 28>>, <<2024, 2, 29>>, <<2022, 5, 31>>, <<2022, 12, 31>>, <<1, 1, 1>>,
+               <<2000, 3, 29>>, <<1900, 1, 29>>, <<-1, 1, 29>>, <<-401, 3, 29>>, <<-101, 5, 29>>,
                <<-1, 12, 31>>, <<-5, 2, 29>>, <<-4, 2, 28>>, <<2000, 2, 29>>, <<1900, 2, 28>>, <<2022, 4, 30>>}
 SetValues(f) == CASE f = "year" -> {W(-5), W(-4), W(-1), W(0), W(1), W(1900), W(2023), W(2024), W(5879611), W(5879612), W(-5879611), W(-5879612)}
                   [] f = "month" -> {W(0), W(1), W(2), W(4), W(12), W(13), U32Max}
